@@ -170,6 +170,9 @@ impl Xorshift64 {
     /// Successive calls to this function (with the same `self`) will yield
     /// every value in the interval [1, 2<sup>64</sup>) exactly once before
     /// starting to repeat the sequence.
+    #[cfg_attr(kani, kani::requires(self.0 != 0))]
+    #[cfg_attr(kani, kani::modifies(&self.0))]
+    #[cfg_attr(kani, kani::ensures(|r: &u64| *r != 0 && self.0 == *r))]
     pub fn next_bits(&mut self) -> u64 {
         let Self(x) = self;
         *x ^= *x << 13;
@@ -589,3 +592,7 @@ mod tests {
         assert_eq!(dist.sample(rng), (true, 2));
     }
 }
+
+#[cfg(kani)]
+#[path = "/verif/kani/rand.rs"]
+pub(crate) mod verif_kani;
